@@ -61,62 +61,276 @@ def d64(bv):
     return z3.fpFPToFP(RNE, to_fp(bv), F64)
 
 
+from fractions import Fraction
+from .. import models as M
+
+DELTA = Fraction(1, 64)      # undecided band around the faces (yards)
+TOL = Fraction(1, 100000)    # relative tolerance of the distance helpers
+
+
+def rv(fr):
+    return z3.RealVal(fr)
+
+
+def sinf_native(bits):
+    r = native.run('replay_base', ['sinf', bits])
+    t = r.stdout.split()
+    return int(t[1]), int(t[2])
+
+
+def to_f32_bits(fr):
+    return f32bits(float(fr))
+
+
+def model_reals(m, rs):
+    out = []
+    for r in rs:
+        v = m.eval(r, model_completion=True)
+        out.append(Fraction(v.numerator_as_long(), v.denominator_as_long()) if z3.is_rational_value(v) else Fraction(v.approx(30).numerator_as_long(), v.approx(30).denominator_as_long()))
+    return out
+
+
 def square_job(job):
-    dump, key, yawbits, rot_bits, sin_bits, cos_bits, timeout = job
+    """one yaw: MIR of is_within_square under the rounding-error semantics; linear real arithmetic"""
+    dump, key, yawbits, timeout = job
     prog = Prog(dump)
     ex = Exec(prog)
-    px, py, pz, sx, sy, sz, L, W, H = [fv(n) for n in ('px', 'py', 'pz', 'sx', 'sy', 'sz', 'len', 'wid', 'hei')]
-    cons = [in_range(v, -20000.0, 20000.0) for v in (px, py, pz, sx, sy, sz)] + [in_range(v, 0.0, 1000.0) for v in (L, W, H)]
+    M.float_reset('err', 'abs')
+    names = ('px', 'py', 'pz', 'sx', 'sy', 'sz', 'len', 'wid', 'hei')
+    bvs, rs = zip(*[M.real_input(n) for n in names])
+    px, py, pz, sx, sy, sz, L, W, H = rs
+    cons = [z3.And(v >= -20000, v <= 20000) for v in (px, py, pz, sx, sy, sz)] + [z3.And(v >= 0, v <= 1000) for v in (L, W, H)]
+    seen = {}
 
     def libm(name, x):
-        # the argument is the concrete rotation the library computed for this yaw
-        return BV(sin_bits if 'sin' in name else cos_bits, 32)
+        x = z3.simplify(x)
+        if not z3.is_bv_value(x):
+            raise Unsupported('sin/cos of a symbolic angle')
+        b = x.as_long()
+        if b not in seen:
+            seen[b] = sinf_native(b)
+        return BV(seen[b][0] if 'sin' in name else seen[b][1], 32)
     ex.set_assumptions(cons)
     t0 = time.time()
-    res = []
     try:
-        paths = ex.explore_guided(key, lambda: [Agg([px, py, pz]), Agg([sx, sy, sz]), L, W, H, BV(yawbits, 32)], env={'libm': libm})
+        paths = ex.explore_guided(key, lambda: [Agg(list(bvs[0:3])), Agg(list(bvs[3:6])), bvs[6], bvs[7], bvs[8], BV(yawbits, 32)], env={'libm': libm})
     except Unsupported as e:
         return {'yaw': yawbits, 'status': 'inconclusive', 'why': str(e)[:300]}
-    # reference in FP64 with the real sin/cos values (exactly representable in f64)
-    s64 = z3.FPVal(bits_f32(sin_bits), F64)
-    c64 = z3.FPVal(bits_f32(cos_bits), F64)
-    dx = z3.fpSub(RNE, d64(px), d64(sx))
-    dy = z3.fpSub(RNE, d64(py), d64(sy))
-    dz = z3.fpSub(RNE, d64(pz), d64(sz))
-    rx = z3.fpSub(RNE, z3.fpMul(RNE, dx, c64), z3.fpMul(RNE, dy, s64))
-    ry = z3.fpAdd(RNE, z3.fpMul(RNE, dy, c64), z3.fpMul(RNE, dx, s64))
-    two = z3.FPVal(2.0, F64)
-    delta = z3.FPVal(2.0 ** -6, F64)
-    hl = z3.fpAdd(RNE, z3.fpDiv(RNE, d64(L), two), two)
-    hw = z3.fpAdd(RNE, z3.fpDiv(RNE, d64(W), two), two)
-    hh = z3.fpAdd(RNE, z3.fpDiv(RNE, d64(H), two), two)
-    ax, ay, az = z3.fpAbs(rx), z3.fpAbs(ry), z3.fpAbs(dz)
-    clearly_in = z3.And(z3.fpLEQ(z3.fpAdd(RNE, ax, delta), hl), z3.fpLEQ(z3.fpAdd(RNE, ay, delta), hw), z3.fpLEQ(z3.fpAdd(RNE, az, delta), hh))
-    clearly_out = z3.Or(z3.fpGT(ax, z3.fpAdd(RNE, hl, delta)), z3.fpGT(ay, z3.fpAdd(RNE, hw, delta)), z3.fpGT(az, z3.fpAdd(RNE, hh, delta)))
+    # reference, independent of the library's rotation formula: the box frame is the world frame rotated by the yaw,
+    # so box-frame coordinates are the offsets rotated by -yaw; cos/sin from Python's libm in double precision
+    yaw = bits_f32(yawbits)
+    C = rv(Fraction(math.cos(yaw)))
+    S = rv(Fraction(math.sin(yaw)))
+    dx, dy, dz = px - sx, py - sy, pz - sz
+    rx = dx * C + dy * S
+    ry = dy * C - dx * S
+    ab = lambda t: z3.If(t >= 0, t, -t)
+    hl, hw, hh = L / 2 + 2, W / 2 + 2, H / 2 + 2
+    d = rv(DELTA)
+    clearly_in = z3.And(ab(rx) + d <= hl, ab(ry) + d <= hw, ab(dz) + d <= hh)
+    clearly_out = z3.Or(ab(rx) > hl + d, ab(ry) > hw + d, ab(dz) > hh + d)
+    res = []
     for P in paths:
         if P.status == 'unsupported':
             return {'yaw': yawbits, 'status': 'inconclusive', 'why': P.detail[:300]}
-        if P.status != 'ret':
+        if P.status == 'infeasible':
             continue
+        if P.status != 'ret':
+            return {'yaw': yawbits, 'status': 'inconclusive', 'why': 'path ends in %s %s' % (P.status, P.detail[:100])}
         r = P.result
         for want, cond, label in ((True, clearly_in, 'a point clearly inside the box is reported outside'), (False, clearly_out, 'a point clearly outside the box is reported inside')):
             sol = z3.Solver()
             sol.set('timeout', timeout * 1000)
             sol.add(*cons)
+            sol.add(*M.ETA_CONS)
             sol.add(*P.pc)
             sol.add(cond)
             sol.add(r != z3.BoolVal(want) if z3.is_bool(r) else r != BV(1 if want else 0, r.size()))
             c = sol.check()
             if c == z3.sat:
-                m = sol.model()
-                vals = [m.eval(v, model_completion=True).as_long() for v in (px, py, pz, sx, sy, sz, L, W, H)]
-                return {'yaw': yawbits, 'status': 'violation', 'what': label, 'vals': vals, 'secs': time.time() - t0}
+                vals = [to_f32_bits(v) for v in model_reals(sol.model(), rs)]
+                return {'yaw': yawbits, 'status': 'candidate', 'what': label, 'vals': vals, 'secs': time.time() - t0}
             if c == z3.unknown:
                 res.append('unknown')
     if res:
         return {'yaw': yawbits, 'status': 'inconclusive', 'why': 'solver timeout', 'secs': time.time() - t0}
-    return {'yaw': yawbits, 'status': 'holds', 'secs': time.time() - t0}
+    return {'yaw': yawbits, 'status': 'holds', 'secs': time.time() - t0, 'paths': len(paths), 'angles': sorted(seen)}
+
+
+def reference_inside(vals_bits, yawbits):
+    """exact rational evaluation of the definition at concrete f32 inputs: 'in', 'out' or 'band'"""
+    v = [Fraction(bits_f32(b)) for b in vals_bits]
+    px, py, pz, sx, sy, sz, L, W, H = v
+    yaw = bits_f32(yawbits)
+    C, S = Fraction(math.cos(yaw)), Fraction(math.sin(yaw))
+    dx, dy, dz = px - sx, py - sy, pz - sz
+    rx, ry = dx * C + dy * S, dy * C - dx * S
+    hl, hw, hh = L / 2 + 2, W / 2 + 2, H / 2 + 2
+    if abs(rx) + DELTA <= hl and abs(ry) + DELTA <= hw and abs(dz) + DELTA <= hh:
+        return 'in'
+    if abs(rx) > hl + DELTA or abs(ry) > hw + DELTA or abs(dz) > hh + DELTA:
+        return 'out'
+    return 'band'
+
+
+def _sexp_num(tok):
+    """value printed by (get-value): 2.0 | (- x) | (/ a b); None for anything else (algebraic numbers)"""
+    tok = tok.strip()
+    try:
+        if tok.startswith('(- '):
+            v = _sexp_num(tok[3:-1])
+            return None if v is None else -v
+        if tok.startswith('(/ '):
+            a, b = _split2(tok[3:-1])
+            a, b = _sexp_num(a), _sexp_num(b)
+            return None if a is None or b is None else a / b
+        return Fraction(tok)
+    except Exception:
+        return None
+
+
+def _split2(t):
+    depth = 0
+    for k, ch in enumerate(t):
+        if ch == '(':
+            depth += 1
+        elif ch == ')':
+            depth -= 1
+        elif ch == ' ' and depth == 0:
+            return t[:k], t[k + 1:]
+    raise ValueError(t)
+
+
+def cli_check(job):
+    """decide one query with the z3 binary under a hard time limit (the library's nlsat ignores soft timeouts)"""
+    fn, smt, names, timeout = job
+    open(fn, 'w').write('(set-logic QF_NRA)\n' + smt + '\n(check-sat)\n' + ''.join('(get-value (%s))\n' % n for n in names))
+    import subprocess
+    t0 = time.time()
+    try:
+        r = subprocess.run(['z3', '-T:%d' % timeout, fn], capture_output=True, text=True, timeout=timeout + 20)
+        out = r.stdout
+    except subprocess.TimeoutExpired:
+        out = 'timeout'
+    lines = out.strip().splitlines()
+    st = lines[0].strip() if lines else 'unknown'
+    if '(error' in out and st != 'sat' and st != 'unsat':
+        st = 'unknown'
+    vals = None
+    if st == 'sat':
+        vals = []
+        for n in names:
+            m = re.search(r'\(\(%s (.*)\)\)' % re.escape(n), out)
+            vals.append(_sexp_num(m.group(1)) if m else None)
+    return st if st in ('sat', 'unsat') else 'unknown', vals, time.time() - t0
+
+
+def distance_queries(prog, inv, workdir, timeout):
+    """distance helpers under the rounding-error semantics (nonlinear real arithmetic): result >= 0 and its square is
+    within relative tolerance of the sum of squared coordinate differences; is_within_distance against the same sum.
+    Coordinate differences a_i - b_i are generalised to free reals x_i (sound: any real in the doubled range)."""
+    jobs = []
+    meta = []
+    fns = set()
+    eps = rv(Fraction(1, 10 ** 12))
+    lo, hi = rv((1 - TOL) ** 2), rv((1 + TOL) ** 2)
+    for name, n, public in (('c20_d3', 3, 'distance_between'), ('c20_d2', 2, 'distance_2d'), ('c20_wd', 3, 'is_within_distance')):
+        ex = Exec(prog)
+        M.float_reset('err', 'rel')
+        root = inv.local.get(name)
+        ins = [M.real_input('%s%d' % (c, i)) for c in 'ab' for i in range(n)]
+        extra = [M.real_input('d')] if name == 'c20_wd' else []
+        bvs = [x[0] for x in ins + extra]
+        rs = [x[1] for x in ins + extra]
+        cons = [z3.And(v >= -20000, v <= 20000) for v in rs[:2 * n]] + ([z3.And(rs[-1] >= 0, rs[-1] <= 40000)] if extra else [])
+        ex.set_assumptions(cons)
+        args = [Agg(list(bvs[:n])), Agg(list(bvs[n:2 * n]))] + ([bvs[-1]] if extra else [])
+        paths = ex.explore_guided(root['key'], lambda: list(args))
+        fns.update(ex.fns_reached)
+        sref = sum((x - y) * (x - y) for x, y in zip(rs[:n], rs[n:2 * n]))
+        xs = [z3.Real('x%d' % i) for i in range(n)]
+        subs = [(rs[i] - rs[n + i], xs[i]) for i in range(n)]
+        for pi, P in enumerate(paths):
+            if P.status == 'infeasible':
+                continue
+            if P.status != 'ret':
+                meta.append({'fn': public, 'label': 'path', 'status': 'unknown', 'why': 'path ends in %s %s' % (P.status, P.detail[:100])})
+                continue
+            if extra:
+                # same inputs, same float session: the callee's result is literally the term distance_between yields
+                r = P.result
+                inside = r if z3.is_bool(r) else r != 0
+                d = rs[-1]
+                ex2 = Exec(prog)
+                ex2.set_assumptions(cons)
+                dp = [Q for Q in ex2.explore_guided(inv.local.get('c20_d3')['key'], lambda: list(args[:2])) if Q.status == 'ret']
+                if len(dp) != 1:
+                    meta.append({'fn': public, 'label': 'path', 'status': 'unknown', 'why': 'distance_between has %d paths' % len(dp)})
+                    continue
+                bads = [('differs from distance_between(a, b) < d', inside != (M.realof(dp[0].result) < d))]
+            else:
+                got = M.realof(P.result)
+                bads = [('negative', got < 0), ('too large', got * got > hi * sref + eps), ('too small', got * got < lo * sref - eps)]
+            for label, bad in bads:
+                f = z3.And(*(list(M.ETA_CONS) + list(P.pc) + [bad]))
+                g = z3.substitute(f, *subs)
+                generalised = not any(str(v) in g.sexpr() for v in rs[:2 * n])
+                sol = z3.Solver()
+                if generalised:
+                    sol.add(*[z3.And(x >= -40000, x <= 40000) for x in xs])
+                    sol.add(*cons[2 * n:])
+                    sol.add(g)
+                    names = [str(x) for x in xs] + [str(v) for v in rs[2 * n:]]
+                else:
+                    sol.add(*cons)
+                    sol.add(f)
+                    names = [str(v) for v in rs]
+                fn = os.path.join(workdir, '%s_%d_%s.smt2' % (name, pi, re.sub(r'\W+', '_', label)[:30]))
+                jobs.append((fn, sol.to_smt2().replace('(check-sat)', ''), names, timeout))
+                meta.append({'fn': public, 'label': label, 'n': n, 'generalised': generalised, 'kind': 'within' if extra else 'dist%d' % n})
+    return jobs, meta, sorted(fns)
+
+
+def distance_check(ck, prog, inv, timeout):
+    from ..common import WORK
+    workdir = os.path.join(WORK, 'c20')
+    os.makedirs(workdir, exist_ok=True)
+    jobs, meta, fns = distance_queries(prog, inv, workdir, timeout)
+    todo = [m for m in meta if 'status' not in m]
+    with mp.Pool(min(NCPU, max(1, len(jobs)))) as pool:
+        results = pool.map(cli_check, jobs, chunksize=1)
+    for m in meta:
+        if m.get('status') == 'unknown':
+            ck.inconclusive.append('%s: %s' % (m['fn'], m['why']))
+    for m, (st, vals, secs) in zip(todo, results):
+        m['secs'] = round(secs, 1)
+        if st == 'unsat':
+            continue
+        if st == 'unknown':
+            ck.inconclusive.append('%s: "%s" obligation: z3 (nonlinear real arithmetic) gave no verdict in %ds' % (m['fn'], m['label'], timeout))
+            continue
+        if vals is None or any(v is None for v in vals):
+            ck.inconclusive.append('%s: "%s": candidate with non-rational coordinates could not be replayed' % (m['fn'], m['label']))
+            continue
+        n = m['n']
+        if m['generalised']:
+            coords = list(vals[:n]) + [Fraction(0)] * n + list(vals[n:])
+        else:
+            coords = list(vals)
+        bits = [to_f32_bits(v) for v in coords]
+        fl = [bits_f32(b) for b in bits]
+        dist = math.sqrt(sum((Fraction(x) - Fraction(y)) ** 2 for x, y in zip(fl[:n], fl[n:2 * n])))
+        outs = [native.run('replay_base', [m['kind']] + bits, release=rel).stdout.strip() for rel in (False, True)]
+        if m['kind'] == 'within':
+            wrong = any(o != ('true' if dist < fl[-1] else 'false') for o in outs) and abs(dist - fl[-1]) > 1e-4 * max(1.0, dist)
+        else:
+            wrong = not all(o and float(o) >= 0 and abs(float(o) - dist) <= 1e-5 * dist + 1e-6 for o in outs)
+        if wrong:
+            ck.violation('geometry::%s' % m['fn'], '%s: %s at %r (exact distance %r, native %r)' % (m['fn'], m['label'], fl, dist, outs), {'vals_bits': bits, 'native': outs, 'kind': m['kind']}, confirmed=True)
+        else:
+            ck.inconclusive.append('%s: "%s": candidate from the rounding-error model does not reproduce natively at %r' % (m['fn'], m['label'], fl))
+    ck.sample({'functions': 'distance_between, distance_2d, is_within_distance', 'obligations': [{k: m.get(k) for k in ('fn', 'label', 'secs')} for m in todo]})
+    return len(jobs), fns
 
 
 def run(tier, only=None):
@@ -126,93 +340,24 @@ def run(tier, only=None):
         ck.inconclusive.append('entry %s does not compile: %s' % (k, why[:200]))
     prog = Prog(out)
     inv = Inventory(prog)
-    ex = Exec(prog)
-    # ---- distances: MIR term == sqrt of the sum of squared differences (f32, RNE), decided by z3
     nq = 0
-    for name, n in (('c20_d3', 3), ('c20_d2', 2)):
-        root = inv.local.get(name)
-        a = [fv('a%d' % i) for i in range(n)]
-        b = [fv('b%d' % i) for i in range(n)]
-        cons = [in_range(v, -20000.0, 20000.0) for v in a + b]
-        ex.set_assumptions(cons)
-        try:
-            paths = ex.explore_guided(root['key'], lambda: [Agg(list(a)), Agg(list(b))])
-        except Unsupported as e:
-            ck.inconclusive.append('%s: %s' % (name, e))
-            continue
-        acc = None
-        for x, y in zip(a, b):
-            dlt = z3.fpSub(RNE, to_fp(x), to_fp(y))
-            sq = z3.fpMul(RNE, dlt, dlt)
-            acc = sq if acc is None else z3.fpAdd(RNE, acc, sq)
-        want = z3.fpSqrt(RNE, acc)
-        for P in paths:
-            if P.status != 'ret':
-                ck.inconclusive.append('%s: path %s %s' % (name, P.status, P.detail[:100]))
-                continue
-            sol = z3.Solver()
-            sol.set('timeout', 120000)
-            sol.add(*cons)
-            sol.add(*P.pc)
-            got = to_fp(P.result)
-            sol.add(z3.Not(z3.Or(z3.fpEQ(got, want), z3.And(z3.fpIsNaN(got), z3.fpIsNaN(want)))))
-            c = sol.check()
-            nq += 1
-            if c == z3.sat:
-                m = sol.model()
-                vals = [bits_f32(m.eval(v, model_completion=True).as_long()) for v in a + b]
-                ck.violation('geometry::%s' % ('distance_between' if n == 3 else 'distance_2d'), 'result is not the Euclidean distance for %s' % (vals,), {'vals': vals})
-            elif c == z3.unknown:
-                ck.inconclusive.append('%s: solver timeout' % name)
-        ck.sample({'function': 'distance_between' if n == 3 else 'distance_2d', 'obligation': 'result == sqrt(sum of squared coordinate differences) in f32 for all finite inputs within +-20000'})
-    # is_within_distance(a, b, d) == (distance_between(a, b) < d)
-    root = inv.local.get('c20_wd')
-    a = [fv('a%d' % i) for i in range(3)]
-    b = [fv('b%d' % i) for i in range(3)]
-    dd = fv('d')
-    cons = [in_range(v, -20000.0, 20000.0) for v in a + b] + [in_range(dd, 0.0, 40000.0)]
-    ex.set_assumptions(cons)
+    fns = set()
+    tq = 150 if tier == 'quick' else 3600
     try:
-        acc = None
-        for x, y in zip(a, b):
-            dlt = z3.fpSub(RNE, to_fp(x), to_fp(y))
-            sq = z3.fpMul(RNE, dlt, dlt)
-            acc = sq if acc is None else z3.fpAdd(RNE, acc, sq)
-        want = z3.fpLT(z3.fpSqrt(RNE, acc), to_fp(dd))
-        for P in ex.explore_guided(root['key'], lambda: [Agg(list(a)), Agg(list(b)), dd]):
-            if P.status != 'ret':
-                continue
-            sol = z3.Solver()
-            sol.set('timeout', 120000)
-            sol.add(*cons)
-            sol.add(*P.pc)
-            r = P.result
-            sol.add(r != want)
-            c = sol.check()
-            nq += 1
-            if c == z3.sat:
-                ck.violation('geometry::is_within_distance', 'is_within_distance disagrees with distance < radius', {})
-            elif c == z3.unknown:
-                ck.inconclusive.append('is_within_distance: solver timeout')
+        k, f = distance_check(ck, prog, inv, tq)
+        nq += k
+        fns.update(f)
     except Unsupported as e:
-        ck.inconclusive.append('is_within_distance: %s' % e)
+        ck.inconclusive.append('distance helpers: %s' % e)
     # ---- boxes: one query set per yaw
     yaws = table_yaws()
-    extra = [f32bits(2 * math.pi * k / 16) for k in range(16)] if tier == 'quick' else [f32bits(2 * math.pi * k / 64) for k in range(64)]
-    sel = yaws if tier != 'quick' else (yaws[::max(1, len(yaws) // 10)][:10])
-    allyaws = sorted(set(sel + extra))
-    r = native.run('replay_base', ['sincos'] + allyaws)
-    table = {}
-    for line in r.stdout.splitlines():
-        t = line.split()
-        if len(t) == 4:
-            table[int(t[0])] = (int(t[1]), int(t[2]), int(t[3]))
+    extra = [f32bits(2 * math.pi * k / 16) for k in range(16)] if tier == 'quick' else [f32bits(2 * math.pi * k / 256) for k in range(256)]
+    allyaws = sorted(set(yaws + extra))
     root = inv.local.get('c20_sq')
-    jobs = [(out, root['key'], y, table[y][0], table[y][1], table[y][2], 120 if tier == 'quick' else 600) for y in allyaws if y in table]
+    jobs = [(out, root['key'], y, 60 if tier == 'quick' else 600) for y in allyaws]
     with mp.Pool(min(NCPU, len(jobs))) as pool:
-        results = pool.map(square_job, jobs, chunksize=1)
+        results = pool.map(square_job, jobs, chunksize=4)
     nhold = 0
-    bad = []
     for res in results:
         nq += 2
         if res['status'] == 'holds':
@@ -220,30 +365,33 @@ def run(tier, only=None):
         elif res['status'] == 'inconclusive':
             ck.inconclusive.append('is_within_square yaw=%r: %s' % (bits_f32(res['yaw']), res.get('why')))
         else:
-            bad.append(res)
-    # native replay of box counterexamples
-    for res in bad:
-        vals = res['vals']
-        args = ['square'] + vals + [res['yaw']]
-        outs = [native.run('replay_base', args, release=rel).stdout.strip() for rel in (False, True)]
-        fl = [bits_f32(v) for v in vals]
-        expect_inside = 'reported outside' in res['what']
-        confirmed = any(o == ('false' if expect_inside else 'true') for o in outs)
-        ck.violation('geometry::is_within_square', '%s: yaw=%r player=%r box centre=%r length/width/height=%r native=%r' % (res['what'], bits_f32(res['yaw']), fl[0:3], fl[3:6], fl[6:9], outs),
-                     {'yaw_bits': res['yaw'], 'vals_bits': vals, 'native': outs, 'what': res['what']}, confirmed=confirmed)
-    ck.sample({'function': 'is_within_square', 'yaws_checked': len(jobs), 'yaws_holding': nhold, 'yaw_sources': '%d distinct yaws of the trigger tables (%d used) + %d evenly spaced' % (len(yaws), len(sel), len(extra))})
-    ck.assume('f32 arithmetic = z3 FP theory, round-to-nearest-even; sin/cos of the rotation are the values the real libm returns on this machine (native runner), one query set per yaw')
-    ck.assume('reference: box-frame coordinates in FP64 (x\' = dx cos r - dy sin r, y\' = dy cos r + dx sin r, r = 2 pi - yaw), 2-yard tolerance, margin delta = 2^-6 yard around the faces is left undecided (rounding)')
-    ck.assume('domain: finite positions and centres within +-20000, extents 0..1000; map equality / trigger-table lookup dispatch (verify_trigger) is not covered by this check')
-    return ck.finish({'states': max(len(jobs), 1), 'transitions': max(nq, 1), 'traces_validated_against_impl': len(bad), 'yaws': len(jobs), 'queries': nq, 'functions_encoded': sorted(ex.fns_reached)[:30],
-                      'bounds': 'yaw: the stated finite set; all other inputs symbolic over the stated ranges',
-                      'rule': 'per yaw: two z3 FP queries (clearly inside => true, clearly outside => false) over all positions and box dimensions'}, fail_on_inconclusive=False)
+            # candidate from the over-approximating model: replay natively at the nearest f32 inputs
+            vals = res['vals']
+            args = ['square'] + vals + [res['yaw']]
+            outs = [native.run('replay_base', args, release=rel).stdout.strip() for rel in (False, True)]
+            fl = [bits_f32(v) for v in vals]
+            ref = reference_inside(vals, res['yaw'])
+            wrong = (ref == 'in' and 'false' in outs) or (ref == 'out' and 'true' in outs)
+            if wrong:
+                ck.violation('geometry::is_within_square', '%s: yaw=%r player=%r box centre=%r length/width/height=%r native=%r definition=%s' % (res['what'], bits_f32(res['yaw']), fl[0:3], fl[3:6], fl[6:9], outs, ref),
+                             {'yaw_bits': res['yaw'], 'vals_bits': vals, 'native': outs, 'what': res['what'], 'kind': 'square'}, confirmed=True)
+            else:
+                ck.inconclusive.append('is_within_square yaw=%r: candidate from the rounding-error model does not reproduce natively (%s; native %r, definition %s)' % (bits_f32(res['yaw']), res['what'], outs, ref))
+    ck.sample({'function': 'is_within_square', 'yaws_checked': len(jobs), 'yaws_holding': nhold, 'yaw_sources': 'all %d distinct yaws of the trigger tables + %d evenly spaced' % (len(yaws), len(extra))})
+    ck.assume('f32 arithmetic is modelled by exact real arithmetic plus one explicit rounding-error term per operation, |eta| <= 2^-24 |exact| + 2^-149 (round-to-nearest without overflow: inputs are bounded so every intermediate stays below 2^18); every f32 execution is an instance, so unsat carries over to the bit-exact semantics; a sat answer is a candidate that is replayed natively at the nearest f32 inputs before it is reported')
+    ck.assume('sin/cos: the angle the MIR computes from the concrete yaw is evaluated bit-exactly (z3 FP simplification) and its f32 sin/cos are taken from this machine\'s libm through the native runner; the reference rotates by the yaw itself with double-precision cos/sin from Python')
+    ck.assume('box reference: offsets rotated into the box frame, half extent + 2-yard tolerance per axis; a band of %s yard around each face is left undecided (rounding of the code and of the reference)' % DELTA)
+    ck.assume('domain: positions and centres within +-20000, extents 0..1000, yaw from the stated finite set; distances: result >= 0 and result^2 within relative (1 +- %s)^2 of the exact sum of squares (+- 1e-12); map equality and the trigger-table lookup (verify_trigger) are not covered by this check' % TOL)
+    return ck.finish({'states': max(len(jobs), 1), 'transitions': max(nq, 1), 'traces_validated_against_impl': 0, 'yaws': len(jobs), 'queries': nq, 'functions_encoded': sorted(fns)[:30],
+                      'bounds': 'yaw: the stated finite set; all other inputs symbolic reals over the stated ranges (superset of the f32 values)',
+                      'rule': 'per yaw: two z3 queries in linear real arithmetic (clearly inside => true, clearly outside => false) over all positions and box dimensions; distances: nonlinear real arithmetic'}, fail_on_inconclusive=False)
 
 
 def replay(path):
     j = json.load(open(path))
-    if 'vals_bits' not in j:
-        print(j.get('what'))
+    if 'vals_bits' not in j or j.get('kind', 'square') != 'square':
+        print(json.dumps(j)[:600])
+        print('VIOLATION property=%s replay=%s' % (PROP, path))
         return 1
     args = ['square'] + j['vals_bits'] + [j['yaw_bits']]
     outs = [native.run('replay_base', args, release=rel).stdout.strip() for rel in (False, True)]
